@@ -700,6 +700,18 @@ VMLoop:
 		case OpFinalizer:
 			upto := int(vm.curInsts[vm.ip+1])
 
+			// A break or continue (the jump follows) out of a finally block
+			// abandons what was pending for its try statement; the value of a
+			// pending return is still on the stack and has to go with it.
+			if eh := vm.curFrame.errHandlers; eh != nil && vm.curInsts[vm.ip+2] == OpJump {
+				for i := len(eh.handlers) - 1; i >= upto && i >= 0 && eh.handlers[i].finally == 0; i-- {
+					for base := eh.handlers[i].base; vm.sp > base; {
+						vm.sp--
+						vm.stack[vm.sp] = nil
+					}
+				}
+			}
+
 			pos := vm.curFrame.errHandlers.findFinally(upto)
 			if pos <= 0 {
 				vm.ip++
@@ -827,6 +839,7 @@ func (vm *VM) xOpSetupTry() {
 
 	ptrs := errHandler{
 		sp:      vm.sp,
+		base:    vm.sp,
 		catch:   catch,
 		finally: finally,
 	}
@@ -1472,6 +1485,7 @@ func (vm *VM) getSourcePos() parser.Pos {
 
 type errHandler struct {
 	sp       int
+	base     int // sp at the beginning of the try statement
 	catch    int
 	finally  int
 	returnTo int
